@@ -291,6 +291,27 @@ def check2(eng, name, goal, last, **kw):
     return ok
 
 
+class guarded:
+    """Real code run by a contract's setup (constructors, earlier steps): an exception escaping it is an obligation failure of
+    the contract (`#no-unexpected-exception`), not a checker error; the path ends there."""
+
+    def __init__(self, I, cname):
+        self.I, self.cname = I, cname
+
+    def __enter__(self):
+        return self
+
+    def __exit__(self, et, ev, tb):
+        if et is not None and issubclass(et, SymRaise):
+            from pyvc.engine import PathEnd
+
+            exc = ev.exc
+            ename = getattr(exc.cls, "__name__", getattr(exc.cls, "name", str(exc.cls)))
+            self.I.eng.check(f"{self.cname}#no-unexpected-exception", False, kind="raises", detail=f"{ename} while preparing the monitor (constructors / earlier steps), line {self.I.lineno}")
+            raise PathEnd()
+        return False
+
+
 def sym_pos(eng):
     """symbolic trace: last >= 0, 0 <= i <= last"""
     last = eng.fresh_int("last")
@@ -841,7 +862,7 @@ def register_update(reg, B4T):
 
     def setup_up(I, env):
         eng = I.eng
-        with driver_frame(I, holder["c"]):
+        with guarded(I, cn2), driver_frame(I, holder["c"]):
             props = {x: I.instantiate(repo_class(f"{PROP}:Atomic"), [], dict(identifier=x)) for x in atoms_of(SHAPE)}
             mon = build_monitor(I, SHAPE, props)
             prior = eng.choose(2, "earlier updates")
@@ -982,7 +1003,7 @@ def register_sugar(reg, B4T):
             for P in Ps:
                 eng.input_syms.append((P.name, ChildTableT(P, last), P))
                 kids.append(child_monitor(I, P, last, cn))
-            with driver_frame(I, holder["c"]):
+            with guarded(I, cn), driver_frame(I, holder["c"]):
                 mon = I.instantiate(repo_class(f"{MON}:{kind}Monitor"), kids, {})  # the real constructor builds the desugared tree
             set_last_index(mon, last)  # class invariant established by Monitor.update: every node has seen the same number of steps
             env.vars.update(self=mon, i=i, _last=last)
@@ -1159,7 +1180,7 @@ def register_end_to_end(reg, B4T):
             for x in names:
                 eng.input_syms.append((x, C.ListOf(C.Bool(), E2E_N), PList(w[x])))
             verdicts = []
-            with driver_frame(I, holder["c"]):
+            with guarded(I, cn), driver_frame(I, holder["c"]):
                 props = {x: I.instantiate(repo_class(f"{PROP}:Atomic"), [], dict(identifier=x)) for x in names}
                 mon = build_monitor(I, f, props)
                 upd, ev = I.find_method(mon.cls, "update"), I.find_method(mon.cls, "evaluate")
